@@ -7,7 +7,8 @@ Import ListNotations.
    exported (the repaired former finding). *)
 Theorem digest_alg_refused :
   forall (k : crypto) (c : mbi_class) (x : mbi) (cb : cert),
-    supported c = true -> validate c x = Ok tt -> provider c SCollect = Some ExportMixinAppCertBlockManifest ->
+    supported c = true -> validate c x = Ok tt -> has c MixinApp = true ->
+    provider c SCollect = Some ExportMixinAppCertBlockManifest ->
     has c MixinManifestDigest = true -> m_cert x = Some cb -> (m_digest x <> 0)%Z ->
     hash_type_of_sig (cert_sig cb) <> Some (m_digest x) ->
     export_c02 k c x = Err E_REJECT.
